@@ -452,3 +452,22 @@ package log
 //@   assert@call WithTimeout#1 : $arg0 == ctx && $arg1 == e.timeout
 //@   assert@return#* : teCalls == 1
 //@ ghost var teCalls int
+
+// ======================================================================== C17 the record a logger builds (logger.go)
+// newRecord: the limits of the new record are the provider's - count limit from the count limit, value-length limit from the
+// value-length limit - and they are in place BEFORE the first attribute is added (attributes are added one by one through
+// AddAttributes, which enforces them); scalar fields are copied from the API record
+//@ func (l *logger) newRecord(ctx context.Context, r log.Record) (nr Record)
+//@   prop C17
+//@   overflow assumed
+//@   unchecked frame,no-panic API record accessors are another module; attributes are added through a callback
+//@   requires l != nil && l.provider != nil
+//@   ensures nr.attributeCountLimit == l.provider.attributeCountLimit && nr.attributeValueLengthLimit == l.provider.attributeValueLengthLimit
+//@   ensures nr.resource == l.provider.resource
+//@   assert@call Record.WalkAttributes#1 : newRecord.attributeCountLimit == l.provider.attributeCountLimit && newRecord.attributeValueLengthLimit == l.provider.attributeValueLengthLimit
+//@ func (l *logger) newRecord$1(kv log.KeyValue) (ok bool)
+//@   prop C17
+//@   overflow assumed
+//@   unchecked frame,no-panic the record under construction is captured by reference
+//@   ensures ok
+//@   assert@call Record.AddAttributes#1 : len($arg1) == 1 && $arg1[0] == kv
